@@ -77,8 +77,10 @@ DelHold(m, t, l, md) == IF md = "w" THEN [m EXCEPT !.hw[l] = 0] ELSE [m EXCEPT !
 HasHold(m, t, l, md) == IF md = "w" THEN m.hw[l] = t ELSE m.hr[l][t] > 0
 
 \* another thread did something: running try calls are no longer "quiescent"
-Disturb(m, t) == [m EXCEPT !.cur = [u \in DOMAIN m.cur |->
-                     IF u # t /\ m.cur[u].on THEN [m.cur[u] EXCEPT !.quiet = FALSE] ELSE m.cur[u]]]
+Disturb(m, t) == IF \E u \in DOMAIN m.cur : u # t /\ m.cur[u].quiet
+                 THEN [m EXCEPT !.cur = [u \in DOMAIN m.cur |->
+                         IF u # t /\ m.cur[u].quiet THEN [m.cur[u] EXCEPT !.quiet = FALSE] ELSE m.cur[u]]]
+                 ELSE m
 
 \* C03: first raw acquisition operation of a call must find the thread holding nothing
 FirstRaw(m, t) ==
@@ -96,9 +98,9 @@ RetryHoldWait(m, t) ==
          mates == IF u = 0 THEN {l} ELSE {x \in DOMAIN m.hw : D(m.sid).unit[x] = u}
      IN HeldBy(m, t) \ mates # {}
 
-\* state predicates evaluated after every event
+\* state predicates evaluated after every event that can change who waits for what
 PostChecks(m) ==
-  LET m1 == IF \E t \in DOMAIN m.fin : RetryHoldWait(m, t)
+  LET m1 == IF D(m.sid).hasretry /\ \E t \in DOMAIN m.fin : m.pend[t] # <<>> /\ RetryHoldWait(m, t)
             THEN Flag(m, "C09", CallSig(m, CHOOSE t \in DOMAIN m.fin : RetryHoldWait(m, t), "waits-while-holding"))
             ELSE m
       m2 == IF Stuck(m1) THEN Flag(m1, "C01", "stuck") ELSE m1
@@ -161,8 +163,9 @@ OnCall(m, e) ==
       quiet == \A u \in DOMAIN m.fin : u = t \/ m.pend[u] = <<>>
       m1 == IF m.kalive[t] THEN m ELSE Flag(m, "C06", "call-without-live-key")
   IN [m1 EXCEPT !.cur[t] = [NoCall EXCEPT !.on = TRUE, !.ci = e.ci, !.api = e.api, !.c = e.c, !.key = e.key, !.rel = e.rel,
-                                            !.quiet = quiet, !.sw = m.hw,
-                                            !.sr = [l \in DOMAIN m.hw |-> Readers(m, l)]]]
+                                            !.quiet = (quiet /\ ApiTry(e.api)),
+                                            !.sw = IF ApiTry(e.api) THEN m.hw ELSE <<>>,
+                                            !.sr = IF ApiTry(e.api) THEN [l \in DOMAIN m.hw |-> Readers(m, l)] ELSE <<>>]]
 
 \* C13: outcome of a try in a quiescent state
 TryExpected(m, t) ==
@@ -248,10 +251,9 @@ OnEnd(m0, e) ==
   THEN Flag(m, "C05", "lock-held-at-end") ELSE m
 
 MonStep(m, ev) ==
-  PostChecks(
-    CASE ev.e = "req"      -> OnReq(m, ev)
-      [] ev.e = "acq"      -> OnAcq(m, ev)
-      [] ev.e = "try"      -> OnTry(m, ev)
+    CASE ev.e = "req"      -> PostChecks(OnReq(m, ev))
+      [] ev.e = "acq"      -> PostChecks(OnAcq(m, ev))
+      [] ev.e = "try"      -> PostChecks(OnTry(m, ev))
       [] ev.e = "rel"      -> OnRel(m, ev)
       [] ev.e = "call"     -> OnCall(m, ev)
       [] ev.e = "ret"      -> OnRet(m, ev)
@@ -261,10 +263,35 @@ MonStep(m, ev) ==
       [] ev.e = "fin"      -> OnFin(m, ev)
       [] ev.e = "get"      -> OnGet(m, ev)
       [] ev.e = "start"    -> m
-      [] ev.e = "done"     -> [m EXCEPT !.fin[ev.t] = TRUE]
+      [] ev.e = "done"     -> PostChecks([m EXCEPT !.fin[ev.t] = TRUE])
       [] ev.e = "end"      -> OnEnd(m, ev)
       [] ev.e = "deadlock" -> Flag(m, "C01", "deadlock-reported-by-scheduler")
-      [] OTHER             -> m )
+      [] OTHER             -> m
+
+(***************************************************************************)
+(* Which properties' rules does event ev exercise in monitor state m?      *)
+(* (observation only: used to count non-vacuous evaluations per property)  *)
+(***************************************************************************)
+RuleHits(m, ev) ==
+  LET t  == IF "t" \in DOMAIN ev THEN ev.t ELSE 0
+      cu == IF t \in DOMAIN m.cur THEN m.cur[t] ELSE NoCall
+      kd == IF cu.c # 0 THEN D(m.sid).C[cu.c].kind ELSE ""
+      al == IF cu.c # 0 THEN D(m.sid).C[cu.c].alg ELSE ""
+  IN
+  CASE ev.e = "req"   -> {"C01"} \cup (IF ~cu.raws THEN {"C03"} ELSE {}) \cup (IF al = "retry" THEN {"C09"} ELSE {})
+    [] ev.e = "acq"   -> (IF SortingCall(m, t) /\ cu.acqs # <<>> THEN {"C08"} ELSE {})
+    [] ev.e = "try"   -> (IF ~cu.raws THEN {"C03"} ELSE {}) \cup (IF al = "retry" /\ ~ApiTry(cu.api) THEN {"C09"} ELSE {})
+    [] ev.e = "rel"   -> {"C05"} \cup (IF cu.faulted THEN {"C12"} ELSE {})
+    [] ev.e = "ret"   -> (IF ev.res # "panicked" THEN {"C04"} ELSE {"C11"})
+                         \cup (IF ApiTry(cu.api) /\ cu.quiet THEN {"C13"} ELSE {})
+    [] ev.e = "enter" -> {"C04", "C02"}
+    [] ev.e = "exit"  -> {"C02"}
+    [] ev.e = "acc"   -> {"C02"}
+    [] ev.e = "fin"   -> (IF ev.keyback THEN {"C03"} ELSE {}) \cup (IF cu.panicked THEN {"C11"} ELSE {})
+                         \cup (IF cu.faulted THEN {"C12"} ELSE {})
+    [] ev.e = "get"   -> {"C06"}
+    [] ev.e = "end"   -> {"C05", "C01"}
+    [] OTHER          -> {}
 
 RECURSIVE MonFold(_, _)
 MonFold(m, evs) == IF evs = <<>> THEN m ELSE MonFold(MonStep(m, Head(evs)), Tail(evs))
